@@ -116,3 +116,22 @@ Theorem C19_export_geo_shared_refuted : forall h cached c c',
   e = cached /\ c19_get (c19_upd h' e c') cached = Some c'.
 Proof. exact c19_export_geo_shared. Qed.
 Print Assumptions C19_export_geo_shared_refuted.
+
+(* the Grid object itself: every helper container of a copy (geometry cache dictionaries, tree
+   slots) is a new object; storing into one grid's containers never touches the other's *)
+Theorem C19_copy_containers : forall h g h' g',
+  c19_grid_copy h g = (h', g') ->
+  (forall i, In i (g_aux g') -> (length h <= i)%nat) /\
+  (forall i j c, In i (g_aux g') -> In j (g_aux g) -> (j < length h)%nat ->
+     c19_get (c19_upd h' i c) j = c19_get h' j) /\
+  (forall i j c, In i (g_aux g') -> In j (g_aux g) -> (j < length h)%nat -> (i < length h')%nat ->
+     c19_get (c19_upd h' j c) i = c19_get h' i).
+Proof. exact c19_grid_copy_containers. Qed.
+Print Assumptions C19_copy_containers.
+
+(* what duplicating the object with copy.copy would do: the containers stay shared *)
+Theorem C19_copy_containers_shallow_refuted : exists h g c,
+  let '(h', g') := c19_grid_copy_shallow h g in
+  exists i, In i (g_aux g') /\ In i (g_aux g) /\ c19_get (c19_upd h' i c) i <> c19_get h' i.
+Proof. exact c19_grid_copy_shallow_refuted. Qed.
+Print Assumptions C19_copy_containers_shallow_refuted.
